@@ -762,4 +762,224 @@ Section SccFull.
       + eapply R_trans; eassumption.
       + eapply R_trans; eassumption.
   Qed.
+
+  (* ---------------- totality: no unwrap fails, the fuel is never exhausted ---------------- *)
+  Lemma lowlink_pass_total : forall pre found v pv nb acc0,
+    lookup teqb v pre = Some pv ->
+    (forall w, In w nb -> ~ In w found ->
+       exists pw, lookup teqb w pre = Some pw /\ (pv < pw -> exists lw', lookup teqb w acc0 = Some lw')) ->
+    forall acc, (exists l, lookup teqb v acc = Some l) ->
+                (forall x, x <> v -> lookup teqb x acc = lookup teqb x acc0) ->
+    exists lw, lowlink_pass teqb pre acc found v pv nb = Ok lw.
+  Proof.
+    intros pre found v pv nb acc0 Hpv. unfold lowlink_pass.
+    induction nb as [ | w t IH ]; intros Hnb acc [l Hl] Hsame; cbn [ofold]; [eexists; reflexivity | ].
+    assert (Ht : forall w', In w' t -> ~ In w' found ->
+                 exists pw, lookup teqb w' pre = Some pw /\ (pv < pw -> exists lw', lookup teqb w' acc0 = Some lw')).
+    { intros w' Hw'. apply Hnb. cbn. tauto. }
+    destruct (mem_name teqb w found) eqn:Hf; cbn [bind].
+    - apply (IH Ht acc); [exists l; exact Hl | exact Hsame].
+    - apply mNot in Hf. destruct (Hnb w (or_introl eq_refl) Hf) as [pw [Hpw Hlow]]. rewrite Hpw, Hl.
+      destruct (Nat.ltb pv pw) eqn:Hc.
+      + apply Nat.ltb_lt in Hc. destruct (Hlow Hc) as [lw' Hlw'].
+        assert (Hwv : w <> v) by (intros ->; rewrite Hpv in Hpw; inversion Hpw; lia).
+        rewrite (Hsame w Hwv), Hlw'. cbn [bind]. apply (IH Ht).
+        * exists (Nat.min l lw'). rewrite (lk_ins nat), t_refl. reflexivity.
+        * intros x Hx. rewrite (lk_ins nat), (t_neq x v Hx). apply Hsame. exact Hx.
+      + cbn [bind]. apply (IH Ht).
+        * exists (Nat.min l pw). rewrite (lk_ins nat), t_refl. reflexivity.
+        * intros x Hx. rewrite (lk_ins nat), (t_neq x v Hx). apply Hsame. exact Hx.
+  Qed.
+
+  (* nodes of the graph that are neither numbered nor on the stack *)
+  Definition undisc (pre : list (T * nat)) (queue : list T) : nat :=
+    length (filter (fun x => negb (contains_key teqb x pre) && negb (mem_name teqb x queue)) (get_all_node_names g)).
+
+  Lemma filter_length_mono : forall (p q : T -> bool) l,
+    (forall x, In x l -> q x = true -> p x = true) -> length (filter q l) <= length (filter p l).
+  Proof.
+    intros p q. induction l as [ | x t IH ]; intros H; [cbn; lia | ]. cbn [filter].
+    assert (IH' : length (filter q t) <= length (filter p t)) by (apply IH; intros y Hy; apply H; cbn; tauto).
+    destruct (q x) eqn:Eq.
+    - rewrite (H x (or_introl eq_refl) Eq). cbn. lia.
+    - destruct (p x); cbn; lia.
+  Qed.
+
+  Lemma filter_length_strict : forall (p q : T -> bool) l w,
+    (forall x, In x l -> q x = true -> p x = true) -> In w l -> p w = true -> q w = false ->
+    S (length (filter q l)) <= length (filter p l).
+  Proof.
+    intros p q. induction l as [ | x t IH ]; intros w H Hw Hp Hq; [destruct Hw | ]. cbn [filter].
+    assert (Ht : forall y, In y t -> q y = true -> p y = true) by (intros y Hy; apply H; cbn; tauto).
+    destruct Hw as [-> | Hw].
+    - rewrite Hp, Hq. cbn. pose proof (filter_length_mono p q t Ht). lia.
+    - specialize (IH w Ht Hw Hp Hq). destruct (q x) eqn:Eq.
+      + rewrite (H x (or_introl eq_refl) Eq). cbn. lia.
+      + destruct (p x); cbn; lia.
+  Qed.
+
+  Lemma scc_inner_total : forall base fuel queue s,
+    sinv teqb base queue s -> xinv queue s ->
+    (forall q, In q queue -> In q (get_all_node_names g)) ->
+    2 * undisc (s_pre s) queue + length queue < fuel ->
+    exists s', scc_inner teqb ord fuel g queue s = Ok s'.
+  Proof.
+    intros base. induction fuel as [ | f IH ]; intros queue s I X Hqn Hf; [lia | ].
+    cbn [scc_inner]. destruct queue as [ | v qt ]; [eexists; reflexivity | ].
+    set (s1 := if contains_key teqb v (s_pre s) then s
+               else mks (insert teqb v (S (s_ctr s)) (s_pre s)) (s_low s) (s_found s) (s_sccq s)
+                        (S (s_ctr s)) (s_comps s)) in *.
+    assert (I1 : sinv teqb base (v :: qt) s1 /\ xinv (v :: qt) s1 /\ numbered teqb (s_pre s1) v /\
+                 undisc (s_pre s1) (v :: qt) <= undisc (s_pre s) (v :: qt)).
+    { unfold s1. destruct (contains_key teqb v (s_pre s)) eqn:E0.
+      - split; [exact I | split; [exact X | split; [apply (contains_numbered teqb); exact E0 | lia] ] ].
+      - pose proof E0 as E0'. apply (not_contains teqb) in E0'. split; [apply step_number; assumption | split ].
+        + eapply xstep_number; eassumption.
+        + cbn [s_pre]. split.
+          * exists (S (s_ctr s)). rewrite (lk_ins nat), t_refl. reflexivity.
+          * unfold undisc. apply filter_length_mono. intros x _ Hx.
+            apply andb_true_iff in Hx. destruct Hx as [Hx1 Hx2]. apply andb_true_iff. split; [ | exact Hx2].
+            apply negb_true_iff in Hx1. apply negb_true_iff.
+            unfold contains_key in *. rewrite (lk_ins nat) in Hx1. destruct (teqb x v); [discriminate | exact Hx1]. }
+    destruct I1 as [I1 [X1 [Hv1 Hu1]]]. clearbody s1.
+    assert (Hcv : contains_key teqb v (s_pre s1) = true) by (apply (contains_numbered teqb); exact Hv1).
+    destruct (find _ (scc_nbrs teqb ord g v)) as [w | ] eqn:Ef.
+    - apply find_some in Ef. destruct Ef as [Hin Hw]. apply negb_true_iff in Hw.
+      pose proof Hw as Hw'. apply (not_contains teqb) in Hw'.
+      assert (Hwn : In w (get_all_node_names g)) by (apply (succ_closed v w); apply E_succ; exact Hin).
+      assert (Hwq : mem_name teqb w (v :: qt) = false).
+      { apply mNot. intros Hc. assert (Hnum : numbered teqb (s_pre s1) w).
+        { destruct Hc as [<- | Hc]; [exact Hv1 | apply (i_queue_tail _ _ _ _ I1 v qt eq_refl w Hc)]. }
+        destruct Hnum as [p Hp]. congruence. }
+      apply IH.
+      + apply step_push; assumption.
+      + eapply xstep_push; eassumption.
+      + intros q [<- | Hq]; [exact Hwn | apply Hqn; exact Hq].
+      + assert (Hstrict : S (undisc (s_pre s1) (w :: v :: qt)) <= undisc (s_pre s1) (v :: qt)).
+        { unfold undisc. apply (filter_length_strict _ _ _ w); [ | exact Hwn | | ].
+          - intros x _ Hx. apply andb_true_iff in Hx. destruct Hx as [Hx1 Hx2]. apply andb_true_iff. split; [exact Hx1 | ].
+            apply negb_true_iff in Hx2. apply negb_true_iff. cbn [mem_name existsb] in Hx2.
+            apply orb_false_iff in Hx2. apply Hx2.
+          - rewrite Hw, Hwq. reflexivity.
+          - cbn [mem_name existsb]. rewrite t_refl. cbn. apply andb_false_r. }
+        cbn [length] in *. lia.
+    - assert (Hnum : forall w, E v w -> numbered teqb (s_pre s1) w).
+      { intros w Hw. pose proof (find_none _ _ Ef w Hw) as Hc. apply negb_false_iff in Hc.
+        apply (contains_numbered teqb). exact Hc. }
+      destruct Hv1 as [pv Hpv]. rewrite Hpv.
+      assert (Hvf : ~ In v (s_found s1)) by (apply (i_queue _ _ _ _ I1); cbn; tauto).
+      destruct (lowlink_pass_total (s_pre s1) (s_found s1) v pv (scc_nbrs teqb ord g v) (s_low s1) Hpv) with
+          (acc := insert teqb v pv (s_low s1)) as [lw Hlw].
+      { intros w Hw Hnf. destruct (Hnum w Hw) as [pw Hpw]. exists pw. split; [exact Hpw | ].
+        intros Hlt. destruct (i_numbered _ _ _ _ I1 w (ex_intro _ pw Hpw)) as [H | [H | [H | H]]].
+        - contradiction.
+        - destruct (x_low_hi _ _ X1 w H) as [lk [pk [H1 _]]]. exists lk. exact H1.
+        - subst w. rewrite Hpv in Hpw. inversion Hpw. lia.
+        - pose proof (x_qsorted _ _ X1 [] v qt eq_refl w pv pw H Hpv Hpw). lia. }
+      { exists pv. rewrite (lk_ins nat), t_refl. reflexivity. }
+      { intros x Hx. rewrite (lk_ins nat), (t_neq x v Hx). reflexivity. }
+      rewrite Hlw. cbn [bind].
+      destruct (finish_low teqb teqb_spec ord base v qt s1 pv _ lw I1 Hpv Hlw) as [Hother [l [Hl [Hlo Hhi]]]].
+      destruct (lowlink_pass_full _ _ _ _ _ _ _ pv Hlw) as [l' [Hl' [_ [Hbound Hwit]]]].
+      { rewrite (lk_ins nat), t_refl. reflexivity. }
+      rewrite Hl in Hl'. inversion Hl'; subst l'. clear Hl'.
+      assert (Hbound' : forall w pw, E v w -> ~ In w (s_found s1) -> lookup teqb w (s_pre s1) = Some pw ->
+                 (pw <= pv -> l <= pw) /\
+                 (pv < pw -> w <> v -> exists lw', lookup teqb w (s_low s1) = Some lw' /\ l <= lw')).
+      { intros w pw Hw Hnf Hpw. destruct (Hbound w pw Hw Hnf Hpw) as [Ha Hb]. split; [exact Ha | ].
+        intros Hlt Hne. destruct (Hb Hlt Hne) as [lw' [Hlw' Hle]].
+        rewrite (lk_ins nat), (t_neq w v Hne) in Hlw'. exists lw'. auto. }
+      rewrite Hl.
+      (* popping v does not change the undiscovered count *)
+      assert (Hpopm : undisc (s_pre s1) qt <= undisc (s_pre s1) (v :: qt)).
+      { unfold undisc. apply filter_length_mono. intros x _ Hx.
+        apply andb_true_iff in Hx. destruct Hx as [Hx1 Hx2]. apply andb_true_iff. split; [exact Hx1 | ].
+        apply negb_true_iff in Hx2. apply negb_true_iff. cbn [mem_name existsb].
+        destruct (teqb x v) eqn:Exv; [ | exact Hx2].
+        apply teqb_spec in Exv. subst x. apply negb_true_iff in Hx1. congruence. }
+      assert (Hqt : forall q, In q qt -> In q (get_all_node_names g)) by (intros q Hq; apply Hqn; cbn; tauto).
+      destruct (Nat.eqb l pv) eqn:El.
+      + apply Nat.eqb_eq in El. subst l.
+        destruct (popq teqb (s_pre s1) v (s_sccq s1) [v]) as [scc q'] eqn:Hpop.
+        apply IH.
+        * eapply step_emit; eassumption.
+        * eapply xstep_emit; try eassumption.
+        * exact Hqt.
+        * cbn [s_pre length] in *. lia.
+      + apply Nat.eqb_neq in El. apply IH.
+        * eapply step_defer; eassumption.
+        * eapply xstep_defer; try eassumption.
+          -- intros Hq0. subst qt. destruct (i_root _ _ _ _ I1 [] v eq_refl) as [[Hn _] | Hr]; [congruence | ].
+             rewrite Hpv in Hr. inversion Hr. lia.
+          -- lia.
+          -- destruct Hwit as [Hw | [w [pw [Hw [Hnf [Hpw Hc]]]]]]; [lia | ].
+             exists w, pw. split; [exact Hw | split; [exact Hnf | split; [exact Hpw | ] ] ].
+             destruct Hc as [Hc | [Hlt [Hne Hlw']]]; [left; exact Hc | right].
+             split; [exact Hlt | split; [exact Hne | ] ].
+             rewrite (lk_ins nat), (t_neq w v Hne) in Hlw'. exact Hlw'.
+        * exact Hqt.
+        * cbn [s_pre length] in *. lia.
+  Qed.
+
+  Lemma undisc_start : forall pre src, In src (get_all_node_names g) ->
+    S (undisc pre [src]) <= length (get_all_node_names g).
+  Proof.
+    intros pre src Hsrc. unfold undisc.
+    assert (Hall0 : forall l : list T, length (filter (fun _ : T => true) l) = length l).
+    { induction l as [ | x t IHt ]; cbn; [reflexivity | rewrite IHt; reflexivity]. }
+    pose proof (Hall0 (get_all_node_names g)) as Hall.
+    rewrite <- Hall.
+    apply (filter_length_strict (fun _ : T => true)
+             (fun x => negb (contains_key teqb x pre) && negb (mem_name teqb x [src])) (get_all_node_names g) src).
+    - intros; reflexivity.
+    - exact Hsrc.
+    - reflexivity.
+    -
+    cbn [mem_name existsb]. rewrite t_refl. cbn. apply andb_false_r.
+  Qed.
+
+  Lemma outer_total : forall names s,
+    incl names (get_all_node_names g) -> rinv teqb s -> rxinv s ->
+    exists s', ofold (fun s src => if mem_name teqb src (s_found s) then Ok s
+                                   else scc_inner teqb ord (2 * length (nodes_vec g) + nedges g + 2) g [src] s)
+                     names s = Ok s'.
+  Proof.
+    induction names as [ | src t IH ]; intros s Hin Rv Rx; cbn [ofold]; [eexists; reflexivity | ].
+    assert (Ht : incl t (get_all_node_names g)) by (intros z Hz; apply Hin; cbn; tauto).
+    assert (Hsrc : In src (get_all_node_names g)) by (apply Hin; cbn; tauto).
+    destruct (mem_name teqb src (s_found s)) eqn:Em; cbn [bind].
+    - apply IH; assumption.
+    - apply mNot in Em.
+      pose proof (rinv_start teqb s src Rv Em) as I0. pose proof (rx_start s src Rv Rx Em) as X0.
+      destruct (scc_inner_total (s_ctr s) (2 * length (nodes_vec g) + nedges g + 2) [src] s I0 X0) as [s1 Hs1].
+      + intros q [<- | []]. exact Hsrc.
+      + pose proof (undisc_start (s_pre s) src Hsrc) as Hu.
+        unfold get_all_node_names in Hu. rewrite map_length in Hu. cbn [length]. lia.
+      + rewrite Hs1. cbn [bind].
+        destruct (scc_inner_full (s_ctr s) _ _ _ _ Hs1 I0 X0) as [I1 X1].
+        apply IH; [exact Ht | apply (rinv_end teqb _ _ I1) | apply rx_end; exact X1].
+  Qed.
+
+  (* strongly_connected_components returns on every directed graph state whose successors
+     are nodes of the graph: no unwrap fails and the fuel 2|V|+|E|+2 per source suffices *)
+  Theorem scc_total :
+    directed (sp g) = true -> exists cs, strongly_connected_components teqb ord g = Ok cs.
+  Proof.
+    intros Hd. unfold strongly_connected_components, ensure_directed. rewrite Hd. cbn [bind].
+    destruct (outer_total (get_all_node_names g) (mks [] [] [] [] 0 []) (incl_refl _)) as [s Hs].
+    - constructor; cbn [s_pre s_low s_found s_sccq s_ctr s_comps].
+      + intros x. cbn. tauto.
+      + constructor.
+      + intros c [].
+      + intros x [].
+      + reflexivity.
+      + intros x [p Hp]. discriminate.
+      + intros x px Hp. discriminate.
+      + intros w l Hl. discriminate.
+    - constructor; cbn [s_pre s_found s_comps].
+      + intros x y p Hx. discriminate.
+      + intros u w [].
+      + intros c [].
+    - rewrite Hs. cbn [bind]. eexists. reflexivity.
+  Qed.
 End SccFull.
